@@ -63,7 +63,9 @@ Definition check_block (img : mem) (b : block) (S : bspec) (vs : list N) : bool 
       match run_pow b.(b_depth) (init m0 []) [] with
       | Halt Looping s wl =>
           (s.(ip) =? xa) && out_is s.(outp) marker && vals_in_range b.(b_vars) vs' &&
-          forallb (word_ok b s.(m) me) wl && forallb (word_ok b s.(m) me) (1 :: vars_words b.(b_vars))
+          (* word 0 (target of every `;label` op's null flip) is on the log once per op: it is checked once, below *)
+          forallb (fun a => match a with 0 => true | _ => word_ok b s.(m) me a end) wl &&
+          forallb (word_ok b s.(m) me) (0 :: 1 :: vars_words b.(b_vars))
       | _ => false
       end
     end
